@@ -9,7 +9,26 @@ static EPOCH: OnceLock<Instant> = OnceLock::new();
 /// Monotonic milliseconds since first call. Safe to use for deadline arithmetic.
 #[must_use]
 pub fn now_ms() -> u64 {
+    #[cfg(d_engine_verif)]
+    if let Some(v) = verif_clock::get() {
+        return v;
+    }
     EPOCH.get_or_init(Instant::now).elapsed().as_millis() as u64
+}
+
+/// Verification hook (compiled only with `--cfg d_engine_verif`): a per-thread override of
+/// `now_ms()` so that an out-of-tree harness can drive lease arithmetic with a controllable clock.
+/// With the override unset (the default) `now_ms()` behaves exactly as without the hook.
+#[cfg(d_engine_verif)]
+pub mod verif_clock {
+    use std::cell::Cell;
+    thread_local! { static OVERRIDE: Cell<Option<u64>> = const { Cell::new(None) }; }
+    pub fn set(v: Option<u64>) {
+        OVERRIDE.with(|c| c.set(v));
+    }
+    pub fn get() -> Option<u64> {
+        OVERRIDE.with(|c| c.get())
+    }
 }
 
 /// Initializes the monotonic clock epoch. Call once at engine startup to avoid
@@ -128,6 +147,32 @@ impl ReadLease {
     ) -> bool {
         let (term, deadline) = Self::unpack(self.packed.load(Ordering::Acquire));
         term == (current_term & 0xFFFF) && deadline > now_ms
+    }
+}
+
+#[cfg(d_engine_verif)]
+impl ReadLease {
+    /// Verification hook: the private `pack` (panics exactly where `pack` panics).
+    pub fn verif_pack(
+        term: u64,
+        deadline_ms: u64,
+    ) -> u64 {
+        Self::pack(term, deadline_ms)
+    }
+    /// Verification hook: the private `unpack`.
+    pub fn verif_unpack(v: u64) -> (u64, u64) {
+        Self::unpack(v)
+    }
+    /// Verification hook: the raw packed word (one atomic load).
+    pub fn verif_raw(&self) -> u64 {
+        self.packed.load(Ordering::Acquire)
+    }
+    /// Verification hook: store a raw packed word.
+    pub fn verif_store_raw(
+        &self,
+        v: u64,
+    ) {
+        self.packed.store(v, Ordering::Release);
     }
 }
 
